@@ -67,9 +67,12 @@ pub fn build(case: &Case) -> Built {
     }
     if !case.header {
         // without the zero header the first data word must be non-zero: that is how the format is detected.
-        // Put the Count cell first when there are files (count >= 1), otherwise a non-zero filler word.
+        // Put the Count cell first when there are files (count >= 1) - or, for one layout seed in three, the Info table, whose first
+        // word is the name cell of the first record (a string pointer: in the file it holds a non-zero offset) -, otherwise a
+        // non-zero filler word.
         if n > 0 {
-            let p = sections.iter().position(|s| *s == 0).unwrap();
+            let first = if case.layout_seed % 3 == 2 && !matches!(case.negative, Negative::MissingName(_)) { 1 } else { 0 };
+            let p = sections.iter().position(|s| *s == first).unwrap();
             sections.swap(0, p);
         } else {
             data.extend_from_slice(&[0xFF, 0xFF, 0xFF, 0xFF]);
@@ -283,6 +286,7 @@ impl Prop for C16 {
         cx.label_if(case.files.len() > 255, ">255-files");
         cx.label_if(case.files.iter().any(|f| f.1 > 65_535), "file>64KiB");
         cx.label_if(!case.header, "without-header");
+        cx.label_if(!case.header && !case.files.is_empty() && case.layout_seed % 3 == 2 && !matches!(case.negative, Negative::MissingName(_)), "without-header-info-table-first");
         cx.label_if(b.empty_body_at_end, "empty-body-at-end-of-data");
         cx.label_if(has_empty, "empty-file");
         cx.label_if(b.record_order_differs, "record-order-differs");
